@@ -21,6 +21,7 @@ Sat(field, inst)    == \A i \in 1..Len(field) : EntrySat(field[i], inst)
 \* q = 1: the relation carries an architecture qualifier ("p:any"): the installed version is still looked up under the
 \* package name, the qualifier plays no part in the decision
 Alts == { [pkg |-> p, op |-> o, req |-> r, q |-> q] : p \in Pkgs, o \in 0..5, r \in (IF Full THEN {2, 4} ELSE {3}), q \in 0..1 }
+Third == { [pkg |-> "p", op |-> 0, req |-> 3, q |-> 0], [pkg |-> "q", op |-> 4, req |-> 3, q |-> 0], [pkg |-> "q", op |-> 1, req |-> 3, q |-> 0] }
 VARIABLES field, inst
 vars == <<field, inst>>
 Insts == [Pkgs -> 0..5]
@@ -30,6 +31,9 @@ Init ==
      \/ \E a \in Alts, b \in Alts : field = << <<a, b>> >>
      \/ \E a \in Alts, b \in Alts : field = << <<a>>, <<b>> >>
      \/ Full /\ \E a \in Alts, b \in Alts, c \in Alts : field = << <<a, b>>, <<c>> >>
+     \* three alternatives / three entries (the third from a small set): "stop after the second" mistakes
+     \/ \E a \in Alts, b \in Alts, c \in Third : a.q = 0 /\ b.q = 0 /\ field = << <<a, b, c>> >>
+     \/ \E a \in Alts, b \in Alts, c \in Third : a.q = 0 /\ b.q = 0 /\ field = << <<a>>, <<b>>, <<c>> >>
      \/ field = <<>>
 Next == UNCHANGED vars
 \* sanity of the relation itself: monotone in the alternatives, empty field always satisfied
